@@ -279,8 +279,16 @@ Stratum02B(b) ==
 \* (with it off the server answers AAAA queries itself, which is outside C02).
 Req02(c, qt) == [name |-> QCOM, qtype |-> qt, client |-> "c1"]
 QTypesFor(c) == IF c.aaaaOff THEN <<"A", "HTTPS">> ELSE QTypes02
-Table02(c) == [q \in DOMAIN QTypesFor(c) |->
-                 [k \in DOMAIN AnsSeq |-> Verdict(c, Req02(c, QTypesFor(c)[q]), AnsOf(AnsSeq[k]))]]
+\* The table of a configuration: one entry per answer section, the query type
+\* rotating with the entry.  Thorough (AllModes): every answer section of
+\* length <= 3; quick: every section of length <= 2 and one eighth of the
+\* sections of length 3 (a different eighth per rule set).
+AnsKeys(c) ==
+    IF AllModes THEN 1..NAns
+    ELSE {k \in 1..NAns : k <= 1 + NRR + NRR * NRR \/ k % 8 = SumIds(c.rules) % 8}
+QTypeAt(c, k) == QTypesFor(c)[((k + SumIds(c.rules)) % Len(QTypesFor(c))) + 1]
+Table02(c) == {[k |-> k, qt |-> QTypeAt(c, k),
+                out |-> Verdict(c, Req02(c, QTypeAt(c, k)), AnsOf(AnsSeq[k]))] : k \in AnsKeys(c)}
 
 \* ----------------------------------------------------------------- actions
 NoCfg == BaseCfg({}, "default")
@@ -345,7 +353,7 @@ Gen02 == /\ p.stage = "bucket"
               LET c == FixMode(c0) IN
               /\ cfg' = c /\ tab' = Table02(c) /\ p' = [p EXCEPT !.stage = "table02"]
               /\ UNCHANGED <<req, bk>>
-              /\ PrintT(<<"@@V", ToJson([kind |-> "c02", cfg |-> c, qtypes |-> QTypesFor(c), tab |-> tab'])>>)
+              /\ PrintT(<<"@@V", ToJson([kind |-> "c02", cfg |-> c, tab |-> tab'])>>)
 NextGen02 == Header02 \/ Bucket02 \/ Gen02
 SpecGen02 == Init /\ [][NextGen02]_vars
 
@@ -366,6 +374,5 @@ NeverForwardedWhileBlocked == (p.why \in {"B", "S"}) => p.upLog = <<>>
 Gen_C01 == (p.stage = "table01") =>
               \A i \in DOMAIN Queries : C01All(cfg, Queries[i], tab[i])
 Gen_C02 == (p.stage = "table02") =>
-              \A q \in DOMAIN tab : \A k \in DOMAIN AnsSeq :
-                  C02All(cfg, Req02(cfg, QTypesFor(cfg)[q]), AnsOf(AnsSeq[k]), tab[q][k])
+              \A e \in tab : C02All(cfg, Req02(cfg, e.qt), AnsOf(AnsSeq[e.k]), e.out)
 =============================================================================
